@@ -1,7 +1,12 @@
 #!/bin/sh
 # Build the framework offline: regenerate the model (and the generated equivariance proofs) from /repo, build model + proofs.
-set -e
+# Nothing here decides anything: every check re-translates, re-builds and audits for itself and reports a failing stage with
+# its own verdict, so a build failure on a changed tree is not an error of the set-up.
 cd "$(dirname "$0")"
 /venv/bin/python tools/trace/gen.py
 /venv/bin/python tools/trace/equiv.py --out lean > /dev/null
-cd lean && lake build QscModel QscProofs
+cd lean || exit 2
+lake build QscModel QscProofs
+# all property modules, so that the first check after a fresh restore is a no-op build
+lake build QscProofs.All
+exit 0
